@@ -30,6 +30,7 @@ SYNTHETIC_AIRPORTS = [
     ('ANB', -9.5, 179.0, 0),
     ('NRA', 42.0, -71.0, 20),       # very short hop
     ('NRB', 42.3, -71.2, 20),
+    ('LOW', 31.0, 35.5, -1240),     # below sea level (the Dead Sea shore)
 ]
 _tmp = None
 
